@@ -297,23 +297,43 @@ Section Proofs.
     Forall (fun t => forall iv, In iv (snd (fst t)) -> pt_of iv = op_pt (fst (fst t))) (run empty ops).
   Proof. eapply Forall_impl; [|apply run_ok, Inv_empty]. intros t [_ [H _]]. exact H. Qed.
 
-  Lemma no_gradient_calls ops : c_nograd c = true ->
-    forall iv, In iv (all_calls (run empty ops)) -> rg_of iv = false.
+  Lemma no_gradient_calls_from s ops : Inv s -> c_nograd c = true ->
+    forall iv, In iv (all_calls (run s ops)) -> rg_of iv = false.
   Proof.
-    intros Hn iv Hin. unfold all_calls in Hin. apply in_concat in Hin as (l & Hl & Hiv).
+    intros HI Hn iv Hin. unfold all_calls in Hin. apply in_concat in Hin as (l & Hl & Hiv).
     apply in_map_iff in Hl as (t & <- & Ht).
-    pose proof (run_ok ops empty Inv_empty) as HF. rewrite Forall_forall in HF.
+    pose proof (run_ok ops s HI) as HF. rewrite Forall_forall in HF.
     destruct (HF t Ht) as [_ [_ [H _]]]. apply (H Hn iv Hiv).
   Qed.
+  Lemma no_gradient_calls ops : c_nograd c = true ->
+    forall iv, In iv (all_calls (run empty ops)) -> rg_of iv = false.
+  Proof. apply no_gradient_calls_from, Inv_empty. Qed.
 
-  Lemma split_calls ops : c_split c = true ->
-    forall iv, In iv (all_calls (run empty ops)) -> rf_of iv && rg_of iv = false.
+  Lemma split_calls_from s ops : Inv s -> c_split c = true ->
+    forall iv, In iv (all_calls (run s ops)) -> rf_of iv && rg_of iv = false.
   Proof.
-    intros Hn iv Hin. unfold all_calls in Hin. apply in_concat in Hin as (l & Hl & Hiv).
+    intros HI Hn iv Hin. unfold all_calls in Hin. apply in_concat in Hin as (l & Hl & Hiv).
     apply in_map_iff in Hl as (t & <- & Ht).
-    pose proof (run_ok ops empty Inv_empty) as HF. rewrite Forall_forall in HF.
+    pose proof (run_ok ops s HI) as HF. rewrite Forall_forall in HF.
     destruct (HF t Ht) as [_ [_ [_ H]]]. apply (H Hn iv Hiv).
   Qed.
+  Lemma split_calls ops : c_split c = true ->
+    forall iv, In iv (all_calls (run empty ops)) -> rf_of iv && rg_of iv = false.
+  Proof. apply split_calls_from, Inv_empty. Qed.
+
+  (* ---- start() called again on the same object ------------------------------------------------------ *)
+  (* whatever the object went through before (any state at all), after start() the invariant holds:
+     the point is forgotten, so nothing that is still stored can be handed out *)
+  Lemma Inv_restart s : Inv (restart s).
+  Proof. intros x H. discriminate. Qed.
+
+  Lemma values_fresh_restart s ops :
+    Forall (fun t => snd t = expected (fst (fst t))) (run (restart s) ops).
+  Proof. eapply Forall_impl; [|apply run_ok, Inv_restart]. intros t [H _]. exact H. Qed.
+
+  Lemma calls_at_point_restart s ops :
+    Forall (fun t => forall iv, In iv (snd (fst t)) -> pt_of iv = op_pt (fst (fst t))) (run (restart s) ops).
+  Proof. eapply Forall_impl; [|apply run_ok, Inv_restart]. intros t [_ [H _]]. exact H. Qed.
 
   (* ---- nothing is requested twice while the point does not change ---------------------------------- *)
   (* under speculative (for a gradient-based method) functions and gradients are cached together *)
@@ -479,6 +499,17 @@ Section Proofs.
     split; assumption.
   Qed.
 
+  Lemma Inv2_restart s : Inv2 (restart s).
+  Proof. intros _. reflexivity. Qed.
+
+  Lemma no_recompute_restart s0 pre ops x : Forall (fun o => op_pt o = x) ops ->
+    let s := exec Fp Gp Xp c (restart s0) pre in
+    count_rf (all_calls (run s ops)) <= 1 /\ count_rg (all_calls (run s ops)) <= 1.
+  Proof.
+    intros H. cbn zeta. destruct (run_counts x ops H _ (exec_Inv2 pre _ (Inv2_restart s0))) as (A & B & _).
+    split; assumption.
+  Qed.
+
   (* ---- a request at a new point never reads the old cache ----------------------------------------- *)
   Lemma step_new_point s o y : cx s = Some y -> op_pt o <> y ->
     snd (fst (step s o)) = snd (fst (step empty o)) /\ snd (step s o) = snd (step empty o).
@@ -514,6 +545,75 @@ Proof.
   pose proof (run_ok Fp Gp Xp c ops empty (Inv_empty Fp Gp Xp c)) as H.
   rewrite <- (run_ops Fp Gp Xp c ops empty) at 2. rewrite map_map.
   induction H as [|t l [Ht _] _ IH]; cbn; [reflexivity | rewrite Ht, IH; reflexivity].
+Qed.
+
+(* ---- several runs on one object (run_chain) ---------------------------------------------------------- *)
+Lemma calc_all_invs : forall ivs ec,
+  map fst (snd (calc_all ec ivs)) = ivs.
+Proof.
+  induction ivs as [|iv t IH]; intros ec; cbn [calc_all]; [reflexivity|].
+  destruct (calculate ec iv) as [ec1 e]. specialize (IH ec1).
+  destruct (calc_all ec1 t) as [ec2 r]. cbn in *. rewrite IH. reflexivity.
+Qed.
+
+(* the combined run returns the values of [run] and invokes the callback exactly as [run] does *)
+Lemma run_ev_run Fp Gp Xp c ops : forall s ec,
+  map (fun r : ret * list (inv * evcall) => (map fst (snd r), fst r)) (run_ev Fp Gp Xp c s ec ops) =
+  map (fun t : op * list inv * ret => (snd (fst t), snd t)) (run Fp Gp Xp c s ops).
+Proof.
+  induction ops as [|o t IH]; intros s ec; cbn [run_ev run map]; [reflexivity|].
+  destruct (step Fp Gp Xp c s o) as [[s1 calls] r].
+  pose proof (calc_all_invs calls ec) as Hc.
+  destruct (calc_all ec calls) as [ec1 evs]. cbn [map fst snd] in *. rewrite Hc, IH. reflexivity.
+Qed.
+
+Lemma exec_ev_exec Fp Gp Xp c ops : forall s ec,
+  fst (exec_ev Fp Gp Xp c s ec ops) = exec Fp Gp Xp c s ops.
+Proof.
+  induction ops as [|o t IH]; intros s ec; cbn [exec_ev exec]; [reflexivity|].
+  destruct (step Fp Gp Xp c s o) as [[s1 calls] r]. destruct (calc_all ec calls) as [ec1 evs]. apply IH.
+Qed.
+
+Lemma rets_expected_from Fp Gp Xp c ops s : Inv Fp Gp Xp c s ->
+  map (fun t => snd t) (run Fp Gp Xp c s ops) = map (expected Fp Gp Xp c) ops.
+Proof.
+  intros HI. pose proof (run_ok Fp Gp Xp c ops s HI) as H.
+  rewrite <- (run_ops Fp Gp Xp c ops s) at 2. rewrite map_map.
+  induction H as [|t l [Ht _] _ IH]; cbn; [reflexivity | rewrite Ht, IH; reflexivity].
+Qed.
+
+(* every run of a chain returns, request by request, the oracle's value at the requested point --
+   whatever the earlier runs on the same object left behind *)
+Lemma chain_values_fresh Fp Gp Xp c : forall seqs s ec,
+  Forall2 (fun ops res => map fst res = map (expected Fp Gp Xp c) ops) seqs (run_chain Fp Gp Xp c s ec seqs).
+Proof.
+  induction seqs as [|ops t IH]; intros s ec; cbn [run_chain]; constructor.
+  - pose proof (run_ev_run Fp Gp Xp c ops (restart s) ec) as H.
+    apply (f_equal (map snd)) in H. rewrite !map_map in H. cbn [snd] in H.
+    rewrite <- (rets_expected_from Fp Gp Xp c ops (restart s) (Inv_restart Fp Gp Xp c s)).
+    etransitivity; [|exact H]. apply map_ext. intros r. reflexivity.
+  - destruct (exec_ev Fp Gp Xp c (restart s) ec ops) as [s1 ec1]. apply IH.
+Qed.
+
+(* ... and the clauses about the evaluations hold in every run of the chain *)
+Lemma chain_calls_good Fp Gp Xp c : forall seqs s ec res r ce,
+  In res (run_chain Fp Gp Xp c s ec seqs) -> In r res -> In ce (snd r) ->
+  (c_nograd c = true -> rg_of (fst ce) = false) /\
+  (c_split c = true -> rf_of (fst ce) && rg_of (fst ce) = false).
+Proof.
+  induction seqs as [|ops t IH]; intros s ec res r ce Hres Hr Hce; cbn [run_chain] in Hres; [contradiction|].
+  destruct Hres as [<-|Hres].
+  - assert (Hin : In (fst ce) (all_calls (run Fp Gp Xp c (restart s) ops))).
+    { pose proof (run_ev_run Fp Gp Xp c ops (restart s) ec) as H.
+      apply (f_equal (map fst)) in H. rewrite !map_map in H. cbn [fst] in H.
+      unfold all_calls. rewrite <- H. apply in_concat.
+      exists (map fst (snd r)). split.
+      - apply in_map_iff. exists r. split; [reflexivity | exact Hr].
+      - apply in_map. exact Hce. }
+    split; intros Hc.
+    + apply (no_gradient_calls_from Fp Gp Xp c (restart s) ops (Inv_restart Fp Gp Xp c s) Hc _ Hin).
+    + apply (split_calls_from Fp Gp Xp c (restart s) ops (Inv_restart Fp Gp Xp c s) Hc _ Hin).
+  - destruct (exec_ev Fp Gp Xp c (restart s) ec ops) as [s1 ec1]. apply (IH s1 ec1 res r ce Hres Hr Hce).
 Qed.
 
 Lemma speculative_values Fp Gp Xp c ops :
